@@ -1396,6 +1396,19 @@ example : (solverFn (relEnv ⟨.c2c, .count, .start⟩ 1 3 (1 / 7)) body_c2c_cou
     (solverFn (relEnv ⟨.c2c, .count, .end_⟩ 1 3 (4 / 7)) body_c2c_count_end 2).toOption = some 0 ∧
     rootOK 0 (1 / 7) 2 1 3 = true ∧ rootOK 0 (1 / 7) 3 1 3 = false := by decide +kernel
 
+/-- `Chop.__post_init__` interpreted from the source as it is now (`cbv/tables/c03.py` reads the list of counted
+    attributes, the threshold of `len(params) - params.count(None) < 2`, the defaulted attribute with its value and the
+    clamp `max(int(self.count), 1)` with `ast`): for all constructor arguments it is the model's `postInit`. -/
+theorem T_C03_translated_post_init (count : Option Int) (start end_ c2c total : Option ℚ) :
+    postInitGen CBV.Gen.c03PostInit count start end_ c2c total = some (postInit count start end_ c2c total) :=
+  postInitGen_eq count start end_ c2c total
+
+/-- the interpretation reacts to its table: with threshold 3 a chop given two parameters would get `c2c = 1` as well -/
+example : (postInitGen CBV.Gen.c03PostInit (some 0) none none none none).map (fun v => (v.count, v.c2c)) = some (some 1, some 1) ∧
+    (postInitGen (["start_size", "end_size", "count", "total_expansion", "c2c_expansion"], 3, ("c2c_expansion", 1), ("count", 1))
+      (some 5) (some (1 / 10)) none none none).map (·.c2c) = some (some 1) ∧
+    (postInitGen CBV.Gen.c03PostInit (some 5) (some (1 / 10)) none none none).map (·.c2c) = some none := by decide +kernel
+
 /-- `Chop.invert`, statement by statement as the source has it now (tuple swap of the sizes, `1 / c2c_expansion` and
     `1 / total_expansion` under their `is not None` tests, the `preserve` field moved to the other end — in this order):
     run on any parameter record it yields the model's `invert` and `swapPreserve`, and when a reciprocal raises
